@@ -12,6 +12,7 @@ import (
 	"github.com/ulikunitz/xz"
 	"github.com/ulikunitz/xz/lzma"
 	"verif/internal/hx"
+	"verif/internal/ref"
 	"verif/internal/tlc"
 )
 
@@ -100,8 +101,17 @@ func runSchedule(c *hx.Ctx, name, format string, data, plain []byte, ks []int, m
 	ended := false
 	after := 0
 	sched := append([]int{}, ks...)
-	for step := 0; step < 5000; step++ {
-		k := 64
+	// after the schedule the rest is read with a buffer that finishes large streams in a few
+	// thousand calls; "never ends" = a long row of reads without progress, or more calls than
+	// bytes (every read into a non-empty buffer must deliver data or report the end).
+	tailK := 64
+	if len(plain) > 100000 {
+		tailK = 8192
+	}
+	maxSteps := len(sched) + len(plain)/tailK*8 + 5000
+	idle := 0
+	for step := 0; step < maxSteps && idle < 200; step++ {
+		k := tailK
 		if step < len(sched) {
 			k = sched[step]
 		} else if ended {
@@ -150,10 +160,15 @@ func runSchedule(c *hx.Ctx, name, format string, data, plain []byte, ks []int, m
 		if !ended {
 			cursor += n
 			ended = rec.Err == "eof"
+			if n == 0 && k > 0 && !ended {
+				idle++
+			} else if n > 0 {
+				idle = 0
+			}
 		}
 	}
 	if !ended {
-		c.Violation(sig("never-ends"), fmt.Sprintf("%s: no end of stream after 5000 reads (offset %d of %d)", name, cursor, len(plain)), replay)
+		c.Violation(sig("never-ends"), fmt.Sprintf("%s: no end of stream after %d reads, %d of them in a row without progress (offset %d of %d)", name, len(recs), idle, cursor, len(plain)), replay)
 	}
 	return recs
 }
@@ -194,6 +209,27 @@ func C13(c *hx.Ctx) {
 	small = append(small, strm{"xz-3blk", "xz", libXZ(XZCfg{LC: 3, PB: 2, DictCap: 4096, BufSize: 4096, Check: 1, BlockSize: 4}, txt), txt})
 	two := append(append(libXZ(XZCfg{LC: 3, PB: 2, DictCap: 4096, BufSize: 4096, Check: 4}, []byte("hello")), 0, 0, 0, 0), libXZ(XZCfg{LC: 3, PB: 2, DictCap: 4096, BufSize: 4096, Check: -1}, []byte("world!"))...)
 	small = append(small, strm{"xz-2streams-pad4", "xz", two, []byte("helloworld!")})
+	{
+		// reference-written blocks whose headers carry the optional size fields in all four
+		// combinations (this library's writer never sets them): a Read may end exactly on the
+		// last byte of a block, before the reader has seen the LZMA2 end chunk
+		var blocks []ref.BlockSpec
+		var plain []byte
+		for b := 0; b < 4; b++ {
+			enc := ref.NewL2Enc(4096)
+			var ops []ref.Op
+			for i := 0; i < 2+b%2; i++ {
+				ops = append(ops, ref.Op{K: ref.OpLit, B: byte('p' + 3*b + i)})
+			}
+			enc.Add(ref.ChunkSpec{Kind: "LRND", Props: ref.Props{LC: 3, LP: 0, PB: 2}, Ops: ops})
+			enc.Add(ref.ChunkSpec{Kind: "EOS"})
+			blocks = append(blocks, ref.BlockSpec{L2: enc.Out, Content: enc.Pt, WithC: b&1 == 0, WithU: b&2 == 0, DictCode: 0})
+			plain = append(plain, enc.Pt...)
+		}
+		for _, chk := range []int{1, 0} {
+			small = append(small, strm{fmt.Sprintf("xz-ref-sizefields-4blk-check%d", chk), "xz", ref.Serialize([]ref.LStream{ref.BuildStream(chk, blocks)}), plain})
+		}
+	}
 	for _, b := range baseLZMA2(c.Seed) {
 		if b.Name == "l2-ref-ud-lrn-u" {
 			small = append(small, strm{b.Name, "lzma2", b.Data, b.Plain})
